@@ -87,6 +87,7 @@ class Runner
         bool budget_known{true};  // false after copy / element-wise move: only what is stored is known to fit
         bool exact{true};         // the data block was sized for exactly this capacity (construction / reserve)
         bool unspecified{false};  // C17: an assignment into this vector threw: valid but unspecified contents
+        bool has_table{true};     // owns an element address table (VaryingSize lists); a default-constructed vector has none
         std::array<std::size_t, (NF ? NF : 1)> fixed{};
         int arena{0};
     };
@@ -541,6 +542,7 @@ class Runner
         m.cap = 0;
         m.budget = 0;
         m.arena = 0;
+        m.has_table = false;
         st.label("default_constructed");
     }
 
@@ -561,6 +563,25 @@ class Runner
         ensure(s, op);
         MVec& m = vs[s].m;
         Vec& v = *vs[s].v;
+        if ((m.el.size() >= m.cap || (NV > 0 && !m.budget_known)) && !zero_byte_elements(m) && (op.d & 0x20) && prop != 16 && prop != 10)
+        {
+            // a user whose vector is full reserves first (README): repair the op into reserve + emplace_back
+            const std::size_t n = m.cap + 1 + (op.c >> 12) % 3;
+            const std::size_t b = NV > 0 ? payload_of(m) + 8 + (op.c >> 6) % 40 : 0;
+            if constexpr (NV > 0)
+                v.reserve(n, b);
+            else
+                v.reserve(n);
+            relocations += m.el.size();
+            if (NV > 0) realloc_on_varying = true;
+            m.cap = n;
+            m.budget = b;
+            m.budget_known = true;
+            m.exact = true;
+            m.has_table = true;
+            ++st.ops_repaired;
+            st.label("emplace_with_reserve");
+        }
         if (m.el.size() >= m.cap || (NV > 0 && !m.budget_known) || zero_byte_elements(m))
         {
             ++st.ops_skipped;
@@ -568,7 +589,31 @@ class Runner
             return;
         }
         const bool small_dom = (op.d >> 4) & 1;
-        MElem e = make_model_elem(m, op.b, op.c, small_dom, remaining_budget(m));
+        uint32_t sizes_seed = op.c;
+        MElem e = make_model_elem(m, op.b, sizes_seed, small_dom, remaining_budget(m));
+        if (NV > 0 && (op.d & 0x40) && !m.el.empty())
+        {
+            // "uniform" mode: same span lengths as the last element (if they fit), so that equal-shaped elements
+            // - the domain of reference assignment, swap and the permuting algorithms - occur often
+            MElem u = e;
+            bool fits = true;
+            std::size_t need = 0;
+            for (std::size_t i = 0; i < N; ++i)
+                if (LI::kinds[i] == VARYING) need += m.el.back().f[i].size() * LI::sizes[i];
+            fits = need <= remaining_budget(m);
+            if (fits)
+            {
+                for (std::size_t i = 0; i < N; ++i)
+                    if (LI::kinds[i] == VARYING)
+                    {
+                        u.f[i].resize(m.el.back().f[i].size());
+                        for (std::size_t j = 0; j < u.f[i].size(); ++j) u.f[i][j] = norm(i, gen_key(op.b, i, j, small_dom));
+                        u.f[i - 1][0] = static_cast<int64_t>(u.f[i].size());
+                    }
+                e = u;
+                st.label("emplace_uniform_shape");
+            }
+        }
         if (had_shrink_op && prop == 1) nt_flag = true;
         if (m.el.empty() && (emptied_by_history || m.cap == 0 || NV > 0) && prop == 18) nt_flag = true;
         do_emplace_model(v, e, op.d);
@@ -672,7 +717,8 @@ class Runner
         Vec& v = *vs[s].v;
         const std::size_t n = m.el.size();
         const std::size_t first = op.b % (n + 1);
-        const std::size_t last = first + op.c % (n - first + 1);
+        std::size_t last = first + op.c % (n - first + 1);
+        if (last == first && first < n && ((op.c >> 8) & 3) != 0) last = first + 1 + (op.c >> 10) % (n - first);  // keep ~1/4 of the empty ranges
         if (first == last) st.label("erase_empty_range");
         if (last == n && first < last) st.label("erase_tail");
         if (last < n && first < last)
@@ -741,6 +787,7 @@ class Runner
             m.budget = b;
             m.budget_known = true;
             m.exact = true;
+            m.has_table = true;
             relocations += m.el.size();
             ++effective_reserves;
             if (effective_reserves >= 2 && prop == 10) nt_flag = true;
@@ -1051,6 +1098,36 @@ class Runner
         ++st.checks;
     }
 
+    // C08: no memory from an allocator that does not compare equal to get_allocator(): deallocation through a foreign
+    // arena (seen by the ledger) and a census of the address-table blocks per arena
+    void monitor_ownership()
+    {
+        for (auto& e : ledger().errors)
+            if (e.code == "dealloc_wrong_arena")
+            {
+                fail("foreign_memory_owned", e.msg);
+                return;
+            }
+        if constexpr (NV > 0 && !K::ae)
+        {
+            std::map<int, long> expected, slack, actual;
+            for (int s = 0; s < NSLOT; ++s)
+            {
+                if (!vs[s].m.alive) continue;
+                const int arena = vs[s].v->get_allocator().arena;
+                if (usable(s))
+                    expected[arena] += vs[s].m.has_table ? 1 : 0;
+                else
+                    ++slack[arena];  // a moved-from vector may or may not still hold a table
+            }
+            for (auto& [k, b] : ledger().live)
+                if (b.is_table) ++actual[b.arena];
+            for (auto& [arena, n] : expected)
+                VF_REQUIRE(actual[arena] >= n && actual[arena] <= n + slack[arena], "foreign_memory_owned",
+                           "arena " + std::to_string(arena) + " holds " + std::to_string(actual[arena]) + " element address tables but " + std::to_string(n) + " vectors with that allocator need one: a vector owns a table from an allocator that is not its get_allocator()");
+        }
+    }
+
     // pre/post snapshots for C10 / C16
     Snap snaps[NSLOT];
     uint64_t pre_alloc{}, pre_dealloc{};
@@ -1189,6 +1266,7 @@ class Runner
                 break;
             case 6: monitor_lifetimes(); break;
             case 7: monitor_ledger(); break;
+            case 8: monitor_ownership(); break;
             case 18:
                 for (int s = 0; s < NSLOT && !bad(); ++s)
                 {
@@ -1318,6 +1396,19 @@ class Runner
                 destroy_eslot(static_cast<int>((op.a / 3) % NSLOT));
             else
                 destroy_eslot(other_slot(s, op.a / 3));
+        }
+        if (op.kind == K_ELEM_COPY || op.kind == K_ELEM_MOVE || op.kind == K_ELEM_COPYASSIGN || op.kind == K_ELEM_MOVEASSIGN)
+        {
+            ensure_elem(s, op);
+            if (op.kind == K_ELEM_COPYASSIGN || op.kind == K_ELEM_MOVEASSIGN)
+            {
+                Op op2 = op;
+                op2.b += 1;
+                op2.c += 1;
+                op2.d += 8;
+                const int d = other_slot(s, op.a / 3);
+                if (!es[d].alive) ensure_elem(d, op2);
+            }
         }
         const uint64_t before = ledger().n_alloc;
         bool threw = false;
